@@ -110,6 +110,17 @@ func pairFor(shape int) (*hlib.Build, *hlib.Build) {
 		distinct(O1, N2, F)
 		return &hlib.Build{Files: []hlib.File{{Path: "a", Data: O1}, {Path: "b", Data: O2}}},
 			&hlib.Build{Files: []hlib.File{{Path: "a", Data: clone(O1)}, {Path: "b", Data: N2}, {Path: "c", Data: F}}}
+	case 2: // the first half of the old file reappears as the second half of the new one, behind fresh bytes:
+		// new[n+x] == old[x] while old[n+x] differs (a region that moved by exactly the size of what precedes it)
+		X, Y, Z := bytesOf("x", 2*B), bytesOf("y", 2*B), bytesOf("z", 2*B)
+		distinct(X, Y, Z)
+		return &hlib.Build{Files: []hlib.File{{Path: "f", Data: append(clone(X), Y...)}}},
+			&hlib.Build{Files: []hlib.File{{Path: "f", Data: append(clone(Z), X...)}}}
+	case 3: // the same with a longer moved region and an unchanged head
+		H, X, Y, Z := bytesOf("h", B), bytesOf("x", 3*B), bytesOf("y", 3*B), bytesOf("z", 3*B)
+		distinct(H, X, Y, Z)
+		return &hlib.Build{Files: []hlib.File{{Path: "f", Data: append(append(clone(H), X...), Y...)}}},
+			&hlib.Build{Files: []hlib.File{{Path: "f", Data: append(append(clone(H), Z...), X...)}}}
 	}
 	return nil, nil
 }
@@ -175,12 +186,34 @@ func H_resume() {
 		}
 	}
 
+	from := sv.kept
+	if rt.HasParam("keep2") {
+		// a second interruption: the resumed run is itself stopped at its keep2-th checkpoint
+		// (checkpoints are counted from the resume), and a third process finishes the job
+		sv2 := &saver{pattern: rt.Param("pattern"), keep: rt.Param("keep2"), lag: 0}
+		pm, err := patcher.New(seeksource.FromBytes(patch), hlib.Consumer)
+		hlib.Must(err, "patcher.New (first resume)")
+		pm.SetSaveConsumer(sv2)
+		bwm, err := mk(pm, dir, stage)
+		hlib.Must(err, "bowl (first resume)")
+		// (each process decodes its own copy of the persisted checkpoint)
+		mine := &patcher.Checkpoint{}
+		hlib.Must(rt.CloneViaGob(mine, from), "checkpoint survives gob (first resume)")
+		merr := pm.Resume(mine, fspool.New(pm.GetTargetContainer(), dir), bwm)
+		if sv2.kept != nil {
+			rt.Reach("second-checkpoint-kept")
+			from = sv2.kept
+		} else {
+			rt.Assert(merr == nil, "the resumed run, never interrupted again, returns no error")
+		}
+	}
+
 	// resume in a brand-new patcher, pool and bowl from the serialized checkpoint
 	p2, err := patcher.New(seeksource.FromBytes(patch), hlib.Consumer)
 	hlib.Must(err, "patcher.New (resume)")
 	bw2, err := mk(p2, dir, stage)
 	hlib.Must(err, "bowl (resume)")
-	rt.Assert(p2.Resume(sv.kept, fspool.New(p2.GetTargetContainer(), dir), bw2) == nil, "resuming from the checkpoint completes successfully")
+	rt.Assert(p2.Resume(from, fspool.New(p2.GetTargetContainer(), dir), bw2) == nil, "resuming from the checkpoint completes successfully")
 	rt.Assert(bw2.Commit() == nil, "commit after resume")
 	result := stage
 	if rt.Param("bowl") == 1 {
